@@ -29,4 +29,6 @@ for p in selftest/benign/*.diff; do [ -f "$p" ] || continue
   git -C /repo checkout -- .
   if [ $rc -eq 0 ]; then echo "ok   $name passes"; else echo "FALSE-ALARM $name (exit $rc)"; echo "$out" | grep -v "^KNOWN" | tail -3; FAIL=1; fi
 done
+
+tools/refresh_evidence.sh > /dev/null
 exit $FAIL
